@@ -9,6 +9,7 @@ import (
 	"bytes"
 	"fmt"
 	"go/constant"
+	"go/scanner"
 	"go/token"
 	"go/types"
 	"math"
@@ -71,7 +72,27 @@ func renderExpr(code *jen.Statement) (expr string, toks []tokn, status string) {
 		return "", nil, "unframed"
 	}
 	expr = src[i+len("var x = ") : j]
-	return expr, scanTokens(r.out, false), "nil"
+	toks = scanTokens(r.out, false)
+	if scanErrors(r.out) > 0 {
+		// the Go scanner rejects the source (an illegal character, a byte order mark in the middle, an unterminated literal):
+		// whatever tokens it recovered, this is not "one literal token"
+		toks = append([]tokn{{tok: token.ILLEGAL, lit: "<scanner error>"}}, toks...)
+	}
+	return expr, toks, "nil"
+}
+
+func scanErrors(src []byte) int {
+	fset := token.NewFileSet()
+	file := fset.AddFile("", fset.Base(), len(src))
+	var sc scanner.Scanner
+	n := 0
+	sc.Init(file, src, func(token.Position, string) { n++ }, 0)
+	for {
+		if _, tok, _ := sc.Scan(); tok == token.EOF {
+			break
+		}
+	}
+	return n
 }
 
 // framed reports whether the token stream is  package main ; var x = <k literal tokens> ; var y = 1 ;  and returns the middle tokens.
